@@ -28,6 +28,8 @@ static PDU* construct(PDU::PDUType t, const uint8_t* p, uint32_t n) {
     }
 }
 
+static long OVERWRITES = 0; static int OVERWRITE_TYPE = 0;
+static void count_overwrite(int type, long) { ++OVERWRITES; OVERWRITE_TYPE = type; }
 struct Res { std::string outcome, what; TouchStat ts; };
 static Res run_parse(std::function<PDU*(const uint8_t*, uint32_t)> parse, const Bytes& b, bool serializable) {
     Res r; uint8_t* blk = new uint8_t[b.size() ? b.size() : 1]; if (!b.empty()) memcpy(blk, &b[0], b.size());
@@ -37,7 +39,14 @@ static Res run_parse(std::function<PDU*(const uint8_t*, uint32_t)> parse, const 
     catch (exception_base& e) { r.outcome = "foreign"; r.what = std::string("libtins exception other than malformed_packet escaped the parser: ") + typeid(e).name(); }
     catch (std::exception& e) { r.outcome = "foreign"; r.what = std::string(typeid(e).name()) + ": " + e.what(); }
     delete[] blk;       // accessors must not depend on the caller's buffer
-    if (p) { touch_all(p, r.ts, serializable); delete p; }
+    if (p) {
+        // C02 on parsed packets: the region monitor (hook H1) watches the serialize() call that touch_all makes
+        OVERWRITES = 0; Internals::verif_region_hook = &count_overwrite;
+        touch_all(p, r.ts, serializable);
+        Internals::verif_region_hook = 0;
+        if (OVERWRITES) { r.ts.ser_fail += 1; if (r.ts.ser_what.empty()) r.ts.ser_what = "serialize(): a layer wrote into the bytes of its inner layers (type " + std::to_string(OVERWRITE_TYPE) + ")"; }
+        delete p;
+    }
     return r;
 }
 
@@ -79,17 +88,17 @@ static void scenario(const vh::Json& sc, vh::Out& out, vh::Rng& rng, const vh::A
         vh::W w; w.O().kv("e", "f").kv("k", k).kv("n", n).kv("p", pos).kv("v", val).kv("applied", applied);
         if (applied) {
             Res r = run_parse(top, b, serializable);
-            long foreign = r.ts.foreign, tins = r.ts.tins, calls = r.ts.calls; std::string what = r.what.empty() ? r.ts.what : r.what; std::string outcome = r.outcome;
+            long foreign = r.ts.foreign, tins = r.ts.tins, calls = r.ts.calls, ser_fail = r.ts.ser_fail; std::string what = r.what.empty() ? r.ts.what : r.what, ser_what = r.ts.ser_what; std::string outcome = r.outcome;
             // the class constructors at every layer boundary that still lies inside the damaged buffer
             for (size_t i = 0; i < layers.size(); ++i) {
                 if (layers[i].first > (long)b.size()) continue;
                 Bytes sub(b.begin() + layers[i].first, b.end()); PDU::PDUType t = layers[i].second;
                 Res r2 = run_parse([t](const uint8_t* p, uint32_t n2) { return construct(t, p, n2); }, sub, serializable);
                 if (r2.outcome == "foreign" && outcome != "foreign") { outcome = "foreign"; what = "layer ctor: " + r2.what; }
-                foreign += r2.ts.foreign; tins += r2.ts.tins; calls += r2.ts.calls; if (what.empty()) what = r2.ts.what;
+                foreign += r2.ts.foreign; tins += r2.ts.tins; calls += r2.ts.calls; if (what.empty()) what = r2.ts.what; ser_fail += r2.ts.ser_fail; if (ser_what.empty()) ser_what = r2.ts.ser_what;
             }
-            w.kv("outcome", outcome).kv("acc_foreign", foreign).kv("acc_tins", tins).kv("calls", calls).kv("what", what);
-        } else w.kv("outcome", "none").kv("acc_foreign", 0).kv("acc_tins", 0).kv("calls", 0).kv("what", "");
+            w.kv("outcome", outcome).kv("acc_foreign", foreign).kv("acc_tins", tins).kv("calls", calls).kv("what", what).kv("ser_fail", ser_fail).kv("ser_what", ser_what);
+        } else w.kv("outcome", "none").kv("acc_foreign", 0).kv("acc_tins", 0).kv("calls", 0).kv("what", "").kv("ser_fail", 0).kv("ser_what", "");
         w.E(); out.event(w);
     }
     out.end();
